@@ -157,8 +157,10 @@ def run_step(ctx, res, stream, sc, mode, verbose, items, pre_raw, clauses, case_
         want = placed[i]
         # catalog order of additions follows slot order only when free slots are contiguous; compare as multisets then order by report
         if sorted(added) != sorted(want):
-            V("placement", "files added to the side differ from the placement rule", {"side": i, "added": [(a[0], len(a[3])) for a in added][:6], "want": [(a[0], len(a[3])) for a in want][:6]})
-            V("stored_match", "files added to the side differ from the sources offered", {"side": i, "added": [(a[0], len(a[3])) for a in added][:6], "want": [(a[0], len(a[3])) for a in want][:6]})
+            only_image = [(a[0], a[1], a[2], len(a[3])) for a in added if a not in want][:4]
+            only_rule = [(a[0], a[1], a[2], len(a[3])) for a in want if a not in added][:4]
+            V("placement", "files added to the side differ from the placement rule", {"side": i, "only_in_image": only_image, "only_by_rule": only_rule, "added": [(a[0], len(a[3])) for a in added][:6], "want": [(a[0], len(a[3])) for a in want][:6]})
+            V("stored_match", "files added to the side differ from the sources offered", {"side": i, "only_in_image": only_image, "only_by_rule": only_rule, "added": [(a[0], len(a[3])) for a in added][:6], "want": [(a[0], len(a[3])) for a in want][:6]})
         for a in added:
             nm = a[0]
         # report section of this side
@@ -370,8 +372,24 @@ def gen_items(rng, used, shape=None, free_hint=157):
     shape = shape or rng.choice(["one", "few", "few", "eos_mix", "many", "big", "overflow", "fill_exact"])
     items = []
 
+    paths = set()
+
     def f(size):
-        name = D.gen_disk_name(rng, used)
+        name = None
+        if used and rng.random() < 0.12:
+            # a name the image (or this batch) already holds, offered again — the newer version of a stored file, the commonest use
+            # of --add: both are kept (distinct names are a premise of C02 only); spelled so that it is another host file than any
+            # other source of this batch
+            key = rng.choice(sorted(used))
+            for cand in () if not all(32 <= ord(ch) < 127 for ch in key) else (key.lower(), key, key.title(), key.swapcase()):
+                if T.catalog_name(cand) == key and T.split_source(cand)[4] not in paths and not cand.startswith("-") and len(T.split_source(cand)[1]) <= 3:
+                    name = cand
+                    break
+        if name is None:
+            name = D.gen_disk_name(rng, used, dashed=True)
+        if T.split_source(name)[4] in paths:
+            name = D.gen_disk_name(rng, used)
+        paths.add(T.split_source(name)[4])
         c = T.content_for(rng, size) if size < 30000 else bytes([rng.getrandbits(8)]) * size
         return ("file", name, c)
 
@@ -444,6 +462,12 @@ def gen_aside(rng, nfiles=None, weird=True, full_catalog=False):
         while True:
             nm = "".join(rng.choice("ABCDEFGHIJKLMNOPQRSTUVWXYZ0123456789_-") for _ in range(rng.choice([1, 4, 8])))
             ex = rng.choice(["BAS", "BIN", "DAT", "TXT", "", "A", "Z9"])
+            if weird and rng.random() < 0.3:
+                # what another system may have written: lower-case letters, blanks, dots, commas, punctuation — shown and extracted as stored
+                nm = "".join(rng.choice("abcdefghijklmnopqrstuvwxyzABCXYZ019 .,!#$%&'()+;=@[]^{}~") for _ in range(rng.choice([1, 3, 5, 8])))
+                ex = rng.choice(["bas", "Bas", "txt", "dat", "a b", "x,y", "b", "", "BIN", "é"[:0] + "z9"])
+                if nm.strip() in ("", ".", "..") or nm != nm.rstrip() or nm.startswith("-"):
+                    continue
             if (nm, ex) not in names:
                 names.add((nm, ex))
                 break
